@@ -43,6 +43,9 @@ Definition run_op (k : kb) (roots : list nat) (w : pworld) (op : sx) : pworld * 
       (PW (upd s q unknown) (upd (pw_leaves w) q unknown) (Some (q, dbool conv)), L [estate n (upd s q unknown)])
   | L [A 7] =>  (* reset_bounds *)
       (PW (pw_leaves w) (pw_leaves w) (pw_query w), L [estate n (pw_leaves w)])
+  | L [A 8; i; b] =>  (* add_data on object i: stored as data (leaves) and as current bounds *)
+      let s' := upd s (dnat i) (dbnd b) in
+      (PW s' (upd (pw_leaves w) (dnat i) (dbnd b)) (pw_query w), L [estate n s'])
   | L [A 9] =>  (* has_contradiction over all registered objects (= reachable from the roots) *)
       (w, L [ebool (has_contradiction k (postorder k roots) s)])
   | _ => (w, bad)
